@@ -32,6 +32,7 @@ def jobs(tier, seed):
     js += [{"sub": "popcount", "w": w} for w in range(1, b["popcount_w"] + 1)]
     js += [{"sub": "helpers"}]
     js += [{"sub": "wide", "w": w} for w in b["wide"]]
+    js += [{"sub": "history", "g1": g} for g in sorted(GENS)]
     js.append({"sub": "popcount", "w": 5, "hashseed": 1 + seed % 1000, "primary": False})
     return js
 
@@ -367,6 +368,100 @@ def run_wide(job, acc):
     acc.observe("wide", w, acc.transitions)
 
 
+# --- histories: obtain a block, edit it, generate again ------------------------------------------
+
+GENS = {
+    "half_adder": ("adders", None),
+    "full_adder": ("adders", None),
+    "adder1": ("adder", 1),
+    "adder2": ("adder", 2),
+    "mux2": ("mux", 2),
+    "mux3": ("mux", 3),
+    "popcount2": ("popcount", 2),
+    "popcount3": ("popcount", 3),
+}
+MUTS = ["retype-gates", "remove-node", "disconnect-all", "clear-outputs", "rename-node", "add-node"]
+
+
+def obtain(g):
+    import circuitgraph as cg
+
+    kind, w = GENS[g]
+    if g == "half_adder":
+        return cg.logic.half_adder()
+    if g == "full_adder":
+        return cg.logic.full_adder()
+    if kind == "adder":
+        return cg.logic.adder(w, carry_in=True, carry_out=True)
+    if kind == "mux":
+        return cg.logic.mux(w)
+    return cg.logic.popcount(w)
+
+
+def mutate(c, m):
+    """Edits a caller is entitled to make to a circuit it was handed."""
+    flip = {"and": "or", "or": "and", "xor": "xnor", "xnor": "xor", "nand": "nor", "nor": "nand", "buf": "not", "not": "buf"}
+    nodes = sorted(c.nodes())
+    if m == "retype-gates":
+        for n in nodes:
+            if c.type(n) in flip:
+                c.set_type(n, flip[c.type(n)])
+    elif m == "remove-node":
+        gates = [n for n in nodes if c.type(n) in flip]
+        if gates:
+            c.remove(gates[0])
+    elif m == "disconnect-all":
+        for u, v in sorted(c.edges()):
+            c.disconnect(u, v)
+    elif m == "clear-outputs":
+        c.set_output(nodes, False)
+    elif m == "rename-node":
+        c.relabel({n: f"zz_{n}" for n in nodes})
+    elif m == "add-node":
+        c.add("zz_extra", "input")
+        c.name = "edited"
+
+
+def verify_gen(acc, g):
+    kind, w = GENS[g]
+    if kind == "adders":
+        run_adders(acc)
+    elif kind == "adder":
+        for ci, co in itertools.product((False, True), repeat=2):
+            check_adder(acc, w, ci, co)
+    elif kind == "mux":
+        check_mux(acc, w)
+    else:
+        check_popcount(acc, w)
+
+
+def run_history(job, acc, muts=None, only_g2=None):
+    g1 = job["g1"]
+    done = []
+    for m in (muts if muts is not None else MUTS):
+        try:
+            c = obtain(g1)
+            mutate(c, m)
+        except Exception as e:  # noqa: BLE001
+            acc.outcome(f"edit-raises:{common.exc_name(e)}")
+        done.append(m)
+        if muts is not None and m != muts[-1]:
+            continue
+        for g2 in ([only_g2] if only_g2 else sorted(GENS)):
+            sub = Acc(job)
+            verify_gen(sub, g2)
+            acc.states += 1
+            acc.nontrivial += 1
+            acc.transitions += sub.transitions
+            acc.outcome("regen-ok" if not sub.violations else "regen-bad")
+            for v in sub.violations[:1]:
+                case = {"kind": "history", "g1": g1, "muts": list(done), "g2": g2}
+                acc.violation("history", "after-edit:" + v["mode"], case,
+                              f"obtain {g1}, edit ({m}), then generate {g2}: " + v["detail"])
+            acc.sample({"kind": "history", "g1": g1, "muts": list(done), "g2": g2})
+    acc.observe("history", g1, sorted(acc.outcomes.items()))
+
+
 def run(job):
     common.setup_paths()
     acc = Acc(job)
@@ -384,6 +479,8 @@ def run(job):
         run_helpers(job, acc)
     elif sub == "wide":
         run_wide(job, acc)
+    elif sub == "history":
+        run_history(job, acc)
     return acc.result()
 
 
@@ -403,6 +500,8 @@ def replay(case, job):
         check_popcount(acc, case["w"])
     elif k in ("clog2", "bin"):
         run_helpers(job, acc)
+    elif k == "history":
+        run_history({"g1": case["g1"]}, acc, muts=case["muts"], only_g2=case["g2"])
     else:
         run_wide({"w": case["w"]}, acc)
     return acc.result()
